@@ -96,6 +96,31 @@ def structures(ctx):
             r = pdbio.parse_line(ln)
             dup.append(pdbio.set_xyz(ln, r.x + 20, r.y, r.z))
     prot.append(("frag-1HPX-A20+25+near-duplicate", C.join(dup + [C.TER])))
+    # a planar NH2 group whose N-C(sp2) bond lies exactly along the x axis of the 0.001 A grid (the plane stays tilted):
+    # idealised / lattice-built coordinates do that, crystal coordinates practically never
+    src = C.chain_lines("3SGB", "E", 0, 40)
+    for resn, n_, c_ in (("ARG", "NH1", "CZ"), ("ASN", "ND2", "CG"), ("GLN", "NE2", "CD")):
+        rids = []
+        for ln in src:
+            if C.is_atom(ln) and ln[17:20] == resn and C.resid(ln) not in rids:
+                rids.append(C.resid(ln))
+        for rid in rids[:1]:
+            pn = C.atom_xyz(src, rid[0], rid[1], n_, rid[2])
+            pc = C.atom_xyz(src, rid[0], rid[1], c_, rid[2])
+            if pn is None or pc is None:
+                continue
+            al = C.align_to_axis(src, pn, pc, 0)
+            an = C.atom_xyz(al, rid[0], rid[1], n_, rid[2])
+            snapped = []
+            for ln in al:
+                if C.is_atom(ln) and C.resid(ln) == rid and ln[12:16].strip() == c_:
+                    r = pdbio.parse_line(ln)
+                    ln = pdbio.set_xyz(ln, r.x, an[1], an[2])
+                snapped.append(ln)
+            prot.append((f"frag-3SGB-E0+40-{resn}{rid[1]}-{n_}-{c_}-along-x", C.join(snapped + [C.TER])))
+            break
+        if len(prot) > 4 and not ctx.thorough():
+            break
     het = [("1HPX", C.test_pdb_text("1HPX")), ("4DFR-A", "\n".join(ln for ln in C.test_pdb_text("4DFR").splitlines()
                                                               if not (C.is_atom(ln) and ln[21] != "A")) + "\n")]
     # a chain that starts with an aspartate (N+ and the carboxylate are covalently coupled), scored with the optional
